@@ -218,8 +218,40 @@ def chk_codepoints(lo, hi, hangul):
     return n, viols
 
 
+_GRID = [(m, p) for m in (0, 1, 2) for p in (0, 1, 2)]
+
+
+def _ev_judge(i):
+    """distinct (mnemonic, passphrase) pairs: seed function and wallet constructor"""
+    from btc_hd_wallet import bip39
+    from btc_hd_wallet.base_wallet import BaseWallet
+    m, p = "zoo wrong %d able" % (i // 2), "pw%d" % (i % 2)
+    exp = hd.seed_from_mnemonic(m, p)
+    out = []
+    st, seed = attempt(bip39.bip39_seed_from_mnemonic, m, p)
+    if st != "ok" or seed != exp:
+        out.append(V(P + ":bip39_seed_from_mnemonic:revisit:wrong-seed", "seed of (%r, %r)" % (m, p)))
+    st, w = attempt(BaseWallet.from_mnemonic, m, p, bool(i % 3 == 0))
+    rm = hd.master(exp)
+    if st != "ok" or int.from_bytes(bytes(w.master.key), "big") != rm.k or bytes(w.master.chain_code) != rm.chain:
+        out.append(V(P + ":from_mnemonic:revisit:wrong-master", "wallet from (%r, %r) holds another master" % (m, p)))
+    return out
+
+
+def _pure_judge(i):
+    return chk_text(*_GRID[i])
+
+
 def execute(case):
-    k = case["k"]
+    k = case.get("k")
+    if "hist" in case:
+        from ..core import isolated
+        from ..bfs import PureCalls
+        judge = _ev_judge if case.get("layer") == "seed-revisits" else _pure_judge
+        r = isolated(PureCalls(10**6, judge, P).run, case["hist"])
+        for v in r["viols"]:
+            v["case"] = case
+        return R(r["label"], viols=r["viols"])
     if k == "cps":
         n, vs = chk_codepoints(case["lo"], case["hi"], case["hangul"])
         return R("violation" if vs else "code-points-ok", viols=vs, n=max(n, 1), nt=n)
@@ -263,5 +295,11 @@ def run(ctx):
         ents += [b"\x00" * size, b"\xff" * size, bytes(r.randrange(256) for _ in range(size)), b"\x00" * 4 + bytes(r.randrange(256) for _ in range(size - 4))]
     pis = [0, 1, 2, 12] if not ctx.thorough else list(range(len(P_ALPHA)))
     ctx.product("constructor-equivalence", [{"k": "ctor", "ent": e.hex(), "p": p} for e in ents for p in pis], execute)
+    from ..bfs import bfs, long_histories, PureCalls
+    model = PureCalls(len(_GRID), _pure_judge, P)
+    bfs(ctx, "seed-call-histories", model, 3 if ctx.thorough else 2)
+    long_histories(ctx, "seed-call-histories+long", model, rotations=9 if ctx.thorough else 3, rounds=2)
+    from ..bfs import eviction_probe
+    eviction_probe(ctx, "seed-revisits", PureCalls(10**6, _ev_judge, P), lambda i: i, sizes=(1, 2, 3, 4, 5, 8, 9, 16, 17, 32, 33))
     ctx.product("new-wallet", [{"k": "new", "len": L, "p": p, "testnet": t} for L in (12, 15, 18, 21, 24) for p in (0, 2) for t in (False, True)], execute)
     return {"mnemonics": len(list(ms)), "passphrases": len(list(ps))}
